@@ -37,7 +37,7 @@ def reforms_mu(s):
     return ("mmu" in once) or ("mµ" in once) or ("mμ" in once)
 
 
-def run(tier, seed, verdict):
+def run(tier, seed, verdict, only=None):
     nixio = core.import_nixio()
     from nixio.util import units
     from nixio.exceptions import InvalidUnit
@@ -136,6 +136,9 @@ def run(tier, seed, verdict):
         state["i"] += 1
         judge(tx[1])
 
+    if only is not None:
+        judge(only)
+        return None
     with core.Scratch("c09") as tmp:
         res = core.run_tlc("NixUnits", "MC_C09.cfg", tmp, workers=1, export_cb=cb,
                            timeout=1200, coverage=False)
@@ -186,3 +189,8 @@ def run(tier, seed, verdict):
         "non-unit strings are only used for clean-up idempotence (the statement demands nothing else of them)",
     ]
     return "model_checking", coverage, assumptions
+
+
+def replay(path):
+    from .c07 import _replay_vector
+    return _replay_vector(path, "C09", run)
